@@ -37,6 +37,10 @@ func h06Sibling(r CharRecipe, how int) CharRecipe {
 // rejection), so Entropy() must not exceed log2(N_valid) - and meets it.
 func H06c() {
 	r := h02Recipe()
+	if vParam("bigL", 0) == 1 {
+		// counts beyond float64 range: 2^1024 is reached at Length 172 for 62 characters
+		r.Length = []int{171, 172, 200, 1000}[vChoice("biglength", 4)]
+	}
 	alpha, reqs, _ := h02Ref(r)
 	if len(alpha) == 0 {
 		vReach("empty-alphabet")
